@@ -884,6 +884,9 @@ def stmt_end(toks, k):
     return len(toks) - 1
 
 
+ANCHOR_REPORT = []
+
+
 def splice(text, sections, where):
     """sections: list of (kind, args, body)"""
     inserts = []   # (offset, order, text)
@@ -921,6 +924,21 @@ def splice(text, sections, where):
             n = int(args[0])
             pat = args[1]
             k = find_anchor(text, toks, pat, n, w)
+            if not pat.startswith('stmt:'):
+                kd, nm = stmt_kind(toks, k)
+                sel = 'stmt:%s%s' % (kd, (' ' + nm) if nm and kd in ('let', 'assign', 'call', 'expr') else '')
+                # ordinal of k among statements with the same selector
+                ordn = 0
+                for q, t in enumerate(toks):
+                    if t[0] in ('ws', 'lcomment', 'bcomment') or not stmt_start_ok(toks, q) or (t[0] == 'punct' and t[1] in '})]'):
+                        continue
+                    kd2, nm2 = stmt_kind(toks, q)
+                    sel2 = 'stmt:%s%s' % (kd2, (' ' + nm2) if nm2 and kd2 in ('let', 'assign', 'call', 'expr') else '')
+                    if sel2 == sel:
+                        ordn += 1
+                    if q == k:
+                        break
+                ANCHOR_REPORT.append((where, kind, n, pat, ordn, sel))
             if kind == 'before':
                 inserts.append((toks[k][2], order, body.rstrip() + '\n'))
             else:
@@ -1123,9 +1141,27 @@ def main():
     ap.add_argument('--repo', default='/repo')
     ap.add_argument('--verif', default=os.path.dirname(os.path.dirname(os.path.abspath(__file__))))
     ap.add_argument('-o', '--out', required=True)
+    ap.add_argument('--convert-anchors', action='store_true', help='rewrite text anchors of the unit template as structural anchors')
     a = ap.parse_args()
     try:
         meta = assemble(a.verif, a.repo, a.unit, a.out)
+        if a.convert_anchors:
+            tp = os.path.join(a.verif, 'units', a.unit, 'unit.rs')
+            t = open(tp).read()
+            n = 0
+            for where, kind, nth, pat, ordn, sel in ANCHOR_REPORT:
+                old = '@%s %d `%s`' % (kind, nth, pat)
+                new = '@%s %d `%s`' % (kind, ordn, sel)
+                fn = where.split('::')[-1]
+                i = t.find('fn %s' % fn)
+                j = t.find(old, i if i >= 0 else 0)
+                if j < 0:
+                    print('cannot find %r for %s' % (old, where), file=sys.stderr)
+                    continue
+                t = t[:j] + new + t[j + len(old):]
+                n += 1
+            open(tp, 'w').write(t)
+            print('converted %d anchors' % n, file=sys.stderr)
     except ExtractError as e:
         print('EXTRACT-ERROR %s' % e, file=sys.stderr)
         sys.exit(2)
